@@ -113,8 +113,16 @@ GHOSTS = {
     # idealised (tol -> 0) meaning; the residual contract of the solver itself is C12/C13's
     "IterativeOperatorWInfo": lambda op: alg.minv(M(op.A)),
     "LSTSQSolve": lambda op: alg.pinvm(M(op.A)),
+    # idealised meaning at full Krylov dimension (Krylov exactness ASSUMED, C09)
+    "LanczosUnary": lambda op: alg.fnm(_fn_of(op.f), M(op.A)),
+    "ArnoldiUnary": lambda op: alg.fnm(_fn_of(op.f), M(op.A)),
     "Concatenated": lambda op: nest(alg.vstack if op.axis == 0 else alg.hstack, [M(x) for x in op.Ms]),
 }
+
+
+def _fn_of(f):
+    from contracts.generic import fn_of
+    return fn_of(f)
 
 
 def result_op(label, Mterm, rows, cols, dtype, annotations=()):
